@@ -49,9 +49,13 @@ def check(chk):
     chk.ob("PAIR-17", "the interface writes to a temporary file, not to the data file itself", tmp not in ("filename", "") , f.where(sc),
            detail="writes to " + tmp, construct=f.ident, text="write target " + tmp)
     td = [x for x in walk_local(f.node) if isinstance(x, ast.Assign) and src(x.targets[0]) == tmp]
-    ok = bool(td) and "os.path.dirname(filename)" in src(td[0].value) and "os.path.basename(filename)" in src(td[0].value)
+    ok = bool(td) and "os.path.dirname(filename)" in src(td[0].value)
     chk.ob("PAIR-17", "the temporary file lies in the same directory (rename stays on one file system)", ok, f.where(), construct=f.ident,
            text="temp file location")
+    ok = bool(td) and "os.path.basename(filename)" in src(td[0].value)
+    chk.ob("PAIR-17", "the temporary file is named after the data file: one temporary file per target, never shared between data managers", ok, f.where(),
+           detail="temp name %s: with a shared name two writers truncate and rename each other's half-written file" % (src(td[0].value) if td else "?"),
+           construct=f.ident, text="temp file name")
     for n, c in reps:
         args = [src(a) for a in c.args]
         chk.ob("PAIR-17", "the temporary file replaces the data file (source, destination in that order)", args == [tmp, "filename"], f.where(c),
@@ -237,6 +241,25 @@ def check(chk):
     skip = [b for b in cfg.nodes if b.kind == "branch" and "'value' not in settings" in src(b.ast)]
     chk.ob("TABLE-6", "malformed records are skipped, not loaded", bool(skip), l_.where(), construct=l_.ident, text="malformed skip")
 
+    # ------------------------------------------------------------ FLOW-6b: what is written is the current state
+    # set_machine_var updates the fields of the persisted record (value, absolute expiry) *before* it hands the record to the data
+    # manager: a field updated after the write is on disk one set late (the expiry of the previous set: a reboot drops a live variable)
+    sm = repo.func(MV, "MachineVariables.set_machine_var")
+    chk.analysed(sm)
+    scfg = sm.cfg()
+    writes = [n for n, c in scfg.calls_named("_write_machine_var_to_disk", "_write_machine_vars_to_disk")]
+    fields = [n for n in scfg.nodes if n.kind == "stmt" and isinstance(n.ast, ast.Assign) and isinstance(n.ast.targets[0], ast.Subscript) and
+              src(n.ast.targets[0].value).startswith("self.machine_vars[name]") and isinstance(n.ast.targets[0].slice, ast.Constant) and
+              n.ast.targets[0].slice.value in ("value", "timeout", "expire_secs")]
+    chk.need(writes and len(fields) >= 2, "FLOW-6", "set_machine_var updates the record and writes it", sm)
+    late = [(f_, w_) for f_ in fields for w_ in writes if f_.id in scfg.reachable([w_.id], include_start=False)]
+    chk.ob("FLOW-6", "set_machine_var updates value and expiry time before the record is written to disk", not late, sm.where(late[0][0].ast) if late else sm.where(),
+           detail="`%s` is stored after the write" % src(late[0][0].ast.targets[0]) if late else "", construct=sm.ident, text="record field updated after the disk write")
+    exp = [n for n in fields if n.ast.targets[0].slice.value == "timeout"]
+    ok = len(exp) == 1 and "get_datetime().timestamp()" in src(exp[0].ast.value) and "expire_secs" in src(exp[0].ast.value) and isinstance(exp[0].ast.value, ast.BinOp) and \
+        isinstance(exp[0].ast.value.op, ast.Add)
+    chk.ob("FLOW-6", "every set restarts the expiry period: expiry = now + expire_secs", ok, sm.where(), construct=sm.ident, text="expiry restart")
+
     # ------------------------------------------------------------ OWN-16
     n_s = 0
     for u in idx.uses("save"):
@@ -273,6 +296,7 @@ def battery():
         M("writer loop polarity", DM, "        while not self.machine.thread_stopper.is_set():", "        while self.machine.thread_stopper.is_set():", "FLOW-6"),
         M("writer skips dirty rounds", DM, "            if not self._dirty.wait(1):\n                continue", "            if self._dirty.wait(1):\n                continue", "FLOW-6"),
         M("unexpired variables are dropped on load when they expire at all", MV, "            if ('expire' in settings and settings['expire'] and\n                    settings['expire'] < current_time):", "            if ('expire' in settings and settings['expire']):", "TABLE-6"),
+        M("expiry time updated after the record was written", MV, "        if self.machine_vars[name][\"expire_secs\"]:\n            self.machine_vars[name][\"timeout\"] = \\\n                self.machine.clock.get_datetime().timestamp() + self.machine_vars[name][\"expire_secs\"]\n\n        # set value\n        self.machine_vars[name]['value'] = value\n\n        if change:\n            self._write_machine_var_to_disk(name)\n", "        # set value\n        self.machine_vars[name]['value'] = value\n\n        if change:\n            self._write_machine_var_to_disk(name)\n        if self.machine_vars[name][\"expire_secs\"]:\n            self.machine_vars[name][\"timeout\"] = \\\n                self.machine.clock.get_datetime().timestamp() + self.machine_vars[name][\"expire_secs\"]\n", "FLOW-6"),
     ]
 
 
